@@ -107,7 +107,7 @@ def g_tag(rng, name=None, nattrs=None, forbid=()):
     return Tag(name, attrs, seps, rng.choice(["", "", " ", "  "]), rng.choice(["", "", " ", "\n"]))
 
 
-MALFORMED_BODIES = ["=x", " =x", "'a'", '"a"', "a ='x", 'a="x', "a='x' =", "", " ", "  ", "a==b", "a= b c", "a=b=c 'd'",
+MALFORMED_BODIES = ["a=b\nc='d'", "a=b\tc='d'", "a x=1\nskip", "a x=1\n to='2000-01-01 00:00:00'", "=x", " =x", "'a'", '"a"', "a ='x", 'a="x', "a='x' =", "", " ", "  ", "a==b", "a= b c", "a=b=c 'd'",
                     "a '", "=", "\n", "a\n=\n'v'"]
 
 # ------------------------------------------------------------------ AST documents
@@ -115,7 +115,7 @@ MALFORMED_BODIES = ["=x", " =x", "'a'", '"a"', "a ='x", 'a="x', "a='x' =", "", "
 
 class El:
     __slots__ = ("kind", "ready", "skip", "unwrap", "children", "indent", "wrap_open", "wrap_close", "to", "name",
-                 "skip_pos", "extra", "id")
+                 "skip_pos", "extra", "id", "pre_close", "post_open")
 
     def __init__(self, kind, ready, skip=False, unwrap=False, children=None, indent=""):
         self.kind, self.ready, self.skip, self.unwrap = kind, ready, skip, unwrap
@@ -128,6 +128,8 @@ class El:
         self.skip_pos = 1
         self.extra = ""
         self.id = 0
+        self.pre_close = ""     # text in front of the closing tag on its line (e.g. another inline element)
+        self.post_open = ""     # text behind the opening tag on its line
 
     def effective_ready(self):
         return self.ready and not self.skip and self.kind in ("tl", "rm")
@@ -260,7 +262,7 @@ def render_lines(items, sp, out):
         if isinstance(it, Line):
             out.append(it.render(sp))
         else:
-            out.append(it.indent + sp.open_tag(it))
+            out.append(it.indent + sp.open_tag(it) + it.post_open)
             if it.unwrap:
                 if it.wrap_open is not None:
                     out.append(it.indent + it.wrap_open)
@@ -269,7 +271,7 @@ def render_lines(items, sp, out):
                     out.append(it.indent + it.wrap_close)
             else:
                 render_lines(it.children, sp, out)
-            out.append(it.indent + sp.close_tag(it))
+            out.append(it.indent + it.pre_close + sp.close_tag(it))
 
 
 def render(items, sp=None, final_nl=True):
